@@ -44,8 +44,8 @@ var ufDecls = []ufDecl{
 	{"str_of_rune", "(declare-fun str_of_rune (Int) Str)"},
 	{"atoi_val", "(declare-fun atoi_val (Str) Int)"},
 	{"atoi_err", "(declare-fun atoi_err (Str) Err)"},
-	{"pf_val", "(declare-fun pf_val (Str) F64)"},
-	{"pf_err", "(declare-fun pf_err (Str) Err)"},
+	{"pf_val", "(declare-fun pf_val (Str Int) F64)"},
+	{"pf_err", "(declare-fun pf_err (Str Int) Err)"},
 	{"itoa", "(declare-fun itoa (Int) Str)"},
 	{"fmt_v", "(declare-fun fmt_v (Any) Str)"},
 	{"json_bytes", "(declare-fun json_bytes (Any) Str)"},
